@@ -40,6 +40,7 @@ ASSUMPTIONS = [
 
 def setup(ctx):
     gcustom.ensure_registered()
+    ctx.count("refused_registrations_before_the_workload", gcustom.refused_registrations())
 
 
 def injections(ver, o, rng):
